@@ -246,6 +246,10 @@ unsigned int irc_pton(irc_inaddr *addr, unsigned int *bits, const char *input, i
                 *bits = 128;
             goto finish;
         }
+        /* All eight groups were read and the text ended in a colon form
+         * ("1:2:3:4:5:6:7::"): this is a whole address as well. */
+        if (bits)
+            *bits = 128;
     finish:
         /* Shift stuff after "::" up and fill middle with zeros. */
         if (cpos < 8) {
